@@ -157,8 +157,71 @@ fn map_fn(which: i64, x: i64) -> usize {
 enum Out<'s> {
     Results(Vec<(i64, DS<'s>)>), // (label of a one-vs-all view or -1, dataset)
     Pairs(Value),                // sample_iter
+    Proto(Value),                // iterator protocol: {"tot": .., "out": [..]}
     NotApplicable,
     StopEmpty, // bootstrap of an empty dataset is not attempted
+}
+
+/// item of a dataset-yielding iterator: [records, targets]
+fn ds_item<D, T, L>(d: &DatasetBase<ArrayBase<D, Ix2>, T>) -> Value
+where
+    D: Data<Elem = f64>,
+    L: Lab,
+    T: AsTargets<Elem = L>,
+{
+    let rec: Vec<Value> = d.records().outer_iter().map(|r| cells(&r)).collect();
+    let tg = d.targets().as_targets();
+    let tgt: Vec<Value> = tg.axis_iter(Axis(0)).map(|r| Value::Array(r.iter().map(|x| json!(x.to_i())).collect())).collect();
+    json!([rec, tgt])
+}
+
+/// Runs an iterator protocol (steps = code * 100 + j: 1 next, 2 nth(j), 3 by_ref().take(j), 4 size_hint, consuming:
+/// 5 collect, 6 skip(j), 7 step_by(j), 8 last, 9 count) on a fresh iterator; every consuming step is bounded by
+/// tot + 3 pulls (tot = length of a fresh iterator walked with next() only), so that a non-terminating adaptor is cut
+/// off and shows as too many items.
+fn run_protocol<I: Iterator, M: Fn() -> I, K: Fn(I::Item) -> Value>(mk: M, steps: &[i64], key: K) -> Value {
+    let tot = mk().take(200).count();
+    let b = tot + 3;
+    let mut it = Some(mk());
+    let mut out = vec![];
+    for s in steps {
+        let (k, j) = (s / 100, (s % 100) as usize);
+        let mut cur = match it.take() {
+            Some(c) => c,
+            None => break,
+        };
+        let mut items: Vec<Value> = vec![];
+        let (mut n, mut lo, mut hi) = (-1i64, -1i64, -1i64);
+        match k {
+            1 => {
+                items = cur.next().into_iter().map(|x| key(x)).collect();
+                it = Some(cur);
+            }
+            2 => {
+                items = cur.nth(j).into_iter().map(|x| key(x)).collect();
+                it = Some(cur);
+            }
+            3 => {
+                items = cur.by_ref().take(j).map(|x| key(x)).collect();
+                it = Some(cur);
+            }
+            4 => {
+                let (l, h) = cur.size_hint();
+                lo = l.min(1 << 20) as i64;
+                hi = h.map(|x| x.min(1 << 20) as i64).unwrap_or(-1);
+                it = Some(cur);
+            }
+            5 => items = cur.take(b).map(|x| key(x)).collect(),
+            6 => items = cur.skip(j).take(b).map(|x| key(x)).collect(),
+            7 => items = cur.step_by(j.max(1)).take(b).map(|x| key(x)).collect(),
+            8 => items = cur.take(b).last().into_iter().map(|x| key(x)).collect(),
+            9 => n = cur.take(b).count() as i64,
+            _ => panic!("unknown protocol step {}", s),
+        }
+        let cut = items.len() >= b || n >= b as i64;
+        out.push(json!({"k": k, "j": j, "items": items, "n": n, "lo": lo, "hi": hi, "cut": cut}));
+    }
+    json!({"tot": tot, "out": out})
 }
 
 fn wrap1<'s, X: Into<DS<'s>>>(x: X) -> Out<'s> {
@@ -210,6 +273,13 @@ fn apply<'s>(ds: &'s DS<'s>, op: &Value) -> Out<'s> {
             let v: Vec<Value> = d.sample_iter().map(|(x, y)| json!([cells(&x), y.iter().map(|l| l.to_i()).collect::<Vec<i64>>()])).collect();
             Out::Pairs(Value::Array(v))
         }),
+        "iterp" => match a {
+            0 => all!(ds, d => Out::Proto(run_protocol(|| d.sample_iter(), &ls,
+                |(x, y)| json!([cells(&x), y.iter().map(|l| l.to_i()).collect::<Vec<i64>>()])))),
+            1 => all!(ds, d => Out::Proto(run_protocol(|| d.feature_iter(), &ls, |v| ds_item(&v)))),
+            2 => all!(ds, d => Out::Proto(run_protocol(|| d.target_iter(), &ls, |v| ds_item(&v)))),
+            _ => all!(ds, d => Out::Proto(run_protocol(|| d.sample_chunks(b as usize), &ls, |v| ds_item(&v)))),
+        },
         "titer" => all!(ds, d => { let v: Vec<_> = d.target_iter().collect(); wrapn(v) }),
         "fiter" => all!(ds, d => { let v: Vec<_> = d.feature_iter().collect(); wrapn(v) }),
         "map" => all!(ds, d => wrap1(d.clone().map_targets(|x| map_fn(a, x.to_i())))),
@@ -251,6 +321,10 @@ fn run_prog<'s>(ds: &'s DS<'s>, ops: &[Value], i: usize, log: &mut Vec<Value>) {
         Out::StopEmpty => log.push(json!({"ev": "stop", "i": i, "op": name, "why": "empty"})),
         Out::Pairs(p) => {
             log.push(json!({"ev": "op", "i": i, "op": name, "res": [], "pairs": p, "pick": -1}));
+            run_prog(ds, ops, i + 1, log)
+        }
+        Out::Proto(p) => {
+            log.push(json!({"ev": "op", "i": i, "op": name, "res": [], "pairs": [], "pick": -1, "tot": p["tot"], "out": p["out"]}));
             run_prog(ds, ops, i + 1, log)
         }
         Out::Results(mut rs) => {
